@@ -566,3 +566,172 @@ def _sym_block(btype, payload):
 
 
 LEMMAS.append(TapeRoundTrip())
+
+
+# =============================================================================================== reader functions (unbounded)
+
+from pyvc.lists import ArrList
+from pyvc.contracts import Forall, prove_forall
+from pyvc.sym import Implies, And as SAnd, Or as SOr, Not as SNot
+
+
+class TapeReaderFns:
+    """
+    Unbounded contracts on the cassette reader's leaf functions (buffer = z3 array of ANY length and content):
+      skip_to_sequence(seq, start)   returns the LEAST p >= start with buffer[p:p+k] == seq (k = 2, 3), -1 iff there is none;
+                                     never raises (loop invariant "no match in [start, pointer)", early return inside the cut loop)
+      read_word(p)                   == 256*buffer[p] + buffer[p+1];  VirtualFileValidationError iff fewer than 2 bytes are left
+      read_coco_file_name(p)         the 8 bytes at p as characters, pointer + 8
+    """
+    name = "tape_reader_fns"
+    props = ("C06", "C13")
+
+    def cells(self, tier):
+        return [{"id": "fn/skip_to_sequence/hdr", "fn": "skip", "seq": [0x55, 0x3C, 0x00]},
+                {"id": "fn/skip_to_sequence/blk", "fn": "skip", "seq": [0x55, 0x3C]},
+                {"id": "fn/read_word", "fn": "word"}, {"id": "fn/read_coco_file_name", "fn": "name"}]
+
+    def probes(self, cell):
+        if cell["fn"] == "skip":
+            seq = cell["seq"]
+            for buf, start in (([0, 0x55] + seq + [1, 2], 0), (seq, 0), ([0x55] * 5 + seq, 2), ([0x55, 0x3C], 0), ([], 0),
+                               (seq + seq, 1), ([0x55] + seq[:-1], 0)):
+                yield {"buf": buf, "start": start}
+        elif cell["fn"] == "word":
+            for buf, p in (([1, 2, 3], 0), ([1, 2, 3], 1), ([1, 2, 3], 2), ([255, 255], 0), ([], 0)):
+                yield {"buf": buf, "p": p}
+
+    def run(self, env, cell):
+        if env.mode == "native":
+            return self.native(env, cell)
+        getattr(self, "s_" + cell["fn"])(env, cell, Files(env))
+
+    def native(self, env, cell):
+        F = Files(env)
+        h = env.holes
+        buf = list(h.get("buf", []))
+        c = F.new(CAS, "CassetteFile", buffer=list(buf)) if buf else F.new(CAS, "CassetteFile")
+        if cell["fn"] == "skip":
+            seq, start = cell["seq"], h.get("start", 0)
+            k = len(seq)
+            try:
+                r = F.method(c, "skip_to_sequence", list(seq), start=start)
+            except Raised as e:
+                env.fail(KEY + "skip_to_sequence::raises:none", ("C06", "C13"), lambda: "raised:%s" % e.cls)
+                return
+            want = -1
+            for p in range(start, len(buf) - k + 1):
+                if buf[p:p + k] == seq:
+                    want = p
+                    break
+            env.ensure(KEY + "skip_to_sequence::post:least-match", r == want, ("C06",), lambda: "returned=%s,least=%s" % (r, want))
+        elif cell["fn"] == "word":
+            p = h.get("p", 0)
+            try:
+                r = F.method(c, "read_word", p)
+            except Raised as e:
+                env.ensure(KEY + "read_word::raises:only-short", e.cls == "VirtualFileValidationError" and p + 2 > len(buf), ("C06", "C13"),
+                           lambda: "raised:%s" % e.cls)
+                return
+            env.ensure(KEY + "read_word::post:value", p + 2 <= len(buf) and F.intval(r) == buf[p] * 256 + buf[p + 1], ("C06",),
+                       lambda: "value")
+        else:
+            env.ensure(KEY + "native-replay-not-implemented", True, ())
+
+    def _cassette(self, env, F, n):
+        c = F.new(CAS, "CassetteFile")
+        A = z3.Array("h_bufarr", z3.IntSort(), z3.IntSort())
+        buf = ArrList(A, n)
+        F.set(c, "buffer", buf)
+        env.hole_terms["buf"] = ("arr", A, n.e if isinstance(n, SymInt) else z3.IntVal(n))
+        return c, buf, A
+
+    def s_skip(self, env, cell, F):
+        seq = cell["seq"]
+        k = len(seq)
+        n = env.hole_int("n", 0, 400000)
+        start = env.hole_int("start", 0, 400000)
+        c, buf, A = self._cassette(env, F, n)
+        key = KEY + "skip_to_sequence"
+
+        def match(q):
+            conj = [q + k <= n] + [mk(z3.Select(A, sym._z(q + j)) == seq[j]) for j in range(k)]
+            return SAnd(*conj)
+        v = Verifier(env, F.it)
+
+        def init(ctx):
+            return {}
+
+        def havoc(ctx):
+            return {}
+
+        def inv(ctx, i, g):
+            return [Forall("nomatch", start, i, lambda q: SNot(match(q)))]
+
+        def step(ctx, i, g):
+            return {}
+        v.loop(key, 0, LoopSpec(("C06",), init, havoc, inv, step))
+        with v.installed():
+            try:
+                r = F.method(c, "skip_to_sequence", list(seq), start=start)
+            except Raised as e:
+                env.fail(key + "::raises:none", ("C06", "C13"))
+                return
+        p = cur()
+        facts = [f for f in v.facts if f.name == "nomatch"]
+        hi = start + n - k + 1
+        if isinstance(r, int) and r == -1:
+            # no position at all matches: inside the scanned range by the invariant, beyond it because q + k > n
+            goal = Forall("nomatch", start, start + n + 1, lambda q: SNot(match(q)))
+            prove_forall(env, p, key + "::post:minus-one-means-no-match", goal, facts, ("C06",))
+            return
+        env.ensure(key + "::post:is-match", match(r), ("C06",))
+        env.ensure(key + "::post:at-or-after-start", r >= start, ("C06",))
+        prove_forall(env, p, key + "::post:least", Forall("nomatch", start, r, lambda q: SNot(match(q))), facts, ("C06",))
+
+    def s_word(self, env, cell, F):
+        n = env.hole_int("n", 0, 400000)
+        pnt = env.hole_int("p", 0, 400000)
+        c, buf, A = self._cassette(env, F, n)
+        b0 = SymInt(z3.Select(A, sym._z(pnt)))
+        b1 = SymInt(z3.Select(A, sym._z(pnt + 1)))
+        for b in (b0, b1):
+            env.assume(b >= 0)
+            env.assume(b <= 255)
+        key = KEY.replace("cassette.py::CassetteFile.", "virtual_file_container.py::VirtualFileContainer.") + "read_word"
+        try:
+            r = F.method(c, "read_word", pnt)
+        except Raised as e:
+            env.ensure(key + "::raises:only-short", (e.cls == "VirtualFileValidationError") and bool(pnt + 2 > n), ("C06", "C13"))
+            return
+        env.ensure(key + "::post:in-range", pnt + 2 <= n, ("C06",))
+        env.ensure(key + "::post:value", F.intval(r) == b0 * 256 + b1, ("C06",))
+
+    def s_name(self, env, cell, F):
+        n = env.hole_int("n", 8, 400000)
+        pnt = env.hole_int("p", 0, 400000)
+        env.assume(pnt + 8 <= n)
+        c, buf, A = self._cassette(env, F, n)
+        bs = []
+        for j in range(8):
+            b = SymInt(z3.Select(A, sym._z(pnt + j)))
+            env.assume(b >= 32)
+            env.assume(b <= 126)
+            bs.append(b)
+        key = KEY + "read_coco_file_name"
+        try:
+            r = F.method(c, "read_coco_file_name", pnt)
+        except Raised as e:
+            env.fail(key + "::raises:none-for-ascii", ("C06", "C13"))
+            return
+        nm, p2 = r[0], r[1]
+        env.ensure(key + "::post:pointer", p2 == pnt + 8, ("C06",))
+        chars = SStr.of(nm).chars
+        ok = len(chars) == 8
+        if ok:
+            for ch, b in zip(chars, bs):
+                ok = ok & ((ch if isinstance(ch, int) else mk(ch.code)) == b)
+        env.ensure(key + "::post:name-bytes", ok, ("C06",))
+
+
+LEMMAS.append(TapeReaderFns())
